@@ -30,7 +30,8 @@ Inductive tev : Type :=
 | TDestroy (l : loc)
 | TAlloc (b size : Z)
 | TDealloc (b size : Z)
-| TFail.                      (* an injected failure fired *)
+| TFail                       (* an injected failure fired *)
+| TVia (m : Z).               (* the memory manager / allocator the following TAlloc / TDealloc goes through *)
 
 Record rstate : Type := mkR {
   cells : loc -> cell;
@@ -117,7 +118,7 @@ Definition remove_blk (b : Z) (bs : list (Z * (Z * Z))) : list (Z * (Z * Z)) :=
 Definition p_alloc (mgr size : Z) : M Z := fun s =>
   match fallible s with
   | (Val _, s1) => let b := nextb s1 in
-                   (Val b, mkR (cells s1) ((b, (mgr, size)) :: blocks s1) (sched s1) (b + 1) (TAlloc b size :: trace s1))
+                   (Val b, mkR (cells s1) ((b, (mgr, size)) :: blocks s1) (sched s1) (b + 1) (TAlloc b size :: TVia mgr :: trace s1))
   | (Exc, s1) => (Exc, s1)
   | (Stuck, s1) => (Stuck, s1)
   end.
@@ -125,7 +126,7 @@ Definition p_alloc (mgr size : Z) : M Z := fun s =>
 Definition p_dealloc (mgr b size : Z) : M unit := fun s =>
   match find_blk b (blocks s) with
   | Some (m, sz) => if Z.eqb m mgr && Z.eqb sz size
-                    then (Val tt, mkR (cells s) (remove_blk b (blocks s)) (sched s) (nextb s) (TDealloc b size :: trace s))
+                    then (Val tt, mkR (cells s) (remove_blk b (blocks s)) (sched s) (nextb s) (TDealloc b size :: TVia mgr :: trace s))
                     else (Stuck, s)            (* wrong size / unequal manager *)
   | None => (Stuck, s)                         (* double free *)
   end.
